@@ -4,9 +4,6 @@ From KV Require Import Base.PyVal Base.Prims Model.Validator Model.Sem.
 Import ListNotations.
 Open Scope nat_scope.
 
-Definition normal (o : outcome) : bool :=
-  match o with OValid _ | OInvalid _ => true | _ => false end.
-
 Definition callr (rec : runner) (c : call) : outcome := rec (fst c) (snd c).
 
 (* ---------- run_calls ---------- *)
